@@ -14,14 +14,18 @@ package main
 import (
 	"bytes"
 	"context"
+	"crypto/ed25519"
 	"encoding/json"
 	"errors"
 	"fmt"
 	"math/rand"
 	"net"
 	"net/http"
+	"sort"
 	"strings"
 	"sync"
+	"sync/atomic"
+	"syscall"
 	"time"
 
 	gmsl "github.com/matrix-org/gomatrixserverlib"
@@ -42,6 +46,10 @@ type stressRec struct {
 	Size    int    `json:"size"`
 	Hosts   int    `json:"hosts"`
 	Seed    int64  `json:"seed"`
+	Ctor    string `json:"ctor"`   // events: untrusted (default) | trusted | headered
+	Copies  string `json:"copies"` // events: "" | setunsigned | sign | both: also call the copy-returning operations
+	Dur0    bool   `json:"dur0"`   // dns: cache lifetime 0
+	Fetch   string `json:"fetch"`  // verify: direct (default) | perspective: a PerspectiveKeyFetcher in front of the DirectKeyFetcher
 }
 
 func stressCase(raw json.RawMessage) hx.Result {
@@ -118,7 +126,10 @@ func stressEventJSON(ver, kind string, tamper bool) []byte {
 var accessors = []func(ev gmsl.PDU) string{
 	func(ev gmsl.PDU) string { return "EventID=" + ev.EventID() },
 	func(ev gmsl.PDU) string { return "RoomID=" + ev.RoomID().String() },
-	func(ev gmsl.PDU) string { h, err := ev.ToHeaderedJSON(); return fmt.Sprint("Headered=", string(h), err) },
+	func(ev gmsl.PDU) string {
+		h, err := ev.ToHeaderedJSON()
+		return fmt.Sprint("Headered=", string(h), err)
+	},
 	func(ev gmsl.PDU) string { return "Type=" + ev.Type() },
 	func(ev gmsl.PDU) string {
 		if p := ev.StateKey(); p != nil {
@@ -146,34 +157,82 @@ var accessors = []func(ev gmsl.PDU) string{
 
 // readAccessors evaluates all accessors starting with number `first` (so that different goroutines make
 // different first calls on the shared event); results are indexed by accessor.
-func readAccessors(ev gmsl.PDU, first int) []string {
-	out := make([]string, len(accessors))
-	for i := range accessors {
-		j := (first + i) % len(accessors)
-		out[j] = accessors[j](ev)
+func readAccessors(ops []func(ev gmsl.PDU) string, ev gmsl.PDU, first int) []string {
+	out := make([]string, len(ops))
+	for i := range ops {
+		j := (first + i) % len(ops)
+		out[j] = ops[j](ev)
 	}
 	return out
+}
+
+// copyOps are the operations the PDU interface documents as returning a copy of the event (the receiver is
+// shared by all goroutines; the copy is private to the caller and is read through its own accessors).
+func copyOps(which string) []func(ev gmsl.PDU) string {
+	setUnsigned := func(ev gmsl.PDU) string {
+		c, err := ev.SetUnsigned(map[string]interface{}{"age": 7})
+		if err != nil {
+			return "SetUnsigned error " + err.Error()
+		}
+		return fmt.Sprint("SetUnsigned=", string(c.Unsigned()), " ", c.EventID(), " ", c.Type(), " ", c.Redacted(), " ", len(c.JSON()))
+	}
+	sign := func(ev gmsl.PDU) string {
+		c := ev.Sign("signer.c19.test", "ed25519:s1", seedKey("signer"))
+		return fmt.Sprint("Sign=", c.EventID(), " ", c.Type(), " ", strings.Contains(string(c.JSON()), "signer.c19.test"))
+	}
+	switch which {
+	case "setunsigned":
+		return []func(ev gmsl.PDU) string{setUnsigned}
+	case "sign":
+		return []func(ev gmsl.PDU) string{sign}
+	case "both":
+		return []func(ev gmsl.PDU) string{setUnsigned, sign}
+	}
+	return nil
 }
 
 func stressEvents(r stressRec) hx.Result {
 	v := gmsl.MustGetRoomVersion(gmsl.RoomVersion(r.Ver))
 	js := stressEventJSON(r.Ver, r.Kind, r.Tamper)
-	parse := func() gmsl.PDU {
+	var headered []byte
+	if r.Ctor == "headered" {
 		ev, err := v.NewEventFromUntrustedJSON(js)
 		if err != nil {
-			panic(fmt.Sprintf("NewEventFromUntrustedJSON(%s %s tamper=%v): %v", r.Ver, r.Kind, r.Tamper, err))
+			panic(err)
+		}
+		ev.EventID()
+		if headered, err = ev.ToHeaderedJSON(); err != nil {
+			panic(err)
+		}
+	}
+	parse := func() gmsl.PDU {
+		var ev gmsl.PDU
+		var err error
+		switch r.Ctor {
+		case "", "untrusted":
+			ev, err = v.NewEventFromUntrustedJSON(js)
+		case "trusted":
+			ev, err = v.NewEventFromTrustedJSON(js, false)
+		case "headered":
+			ev, err = gmsl.NewEventFromHeaderedJSON(headered, false)
+		default:
+			panic("unknown constructor " + r.Ctor)
+		}
+		if err != nil {
+			panic(fmt.Sprintf("constructor %q (%s %s tamper=%v): %v", r.Ctor, r.Ver, r.Kind, r.Tamper, err))
 		}
 		return ev
 	}
+	ops := append(append([]func(ev gmsl.PDU) string{}, accessors...), copyOps(r.Copies)...)
 	// Sequential evaluation on private copies, once for every starting accessor: the result of an accessor in
 	// SOME sequential order of the calls.  (ToHeaderedJSON legitimately differs with the order: it embeds the
 	// event ID only once EventID() has been called.)
-	want := make([]map[string]bool, len(accessors))
+	want := make([]map[string]bool, len(ops))
 	for i := range want {
 		want[i] = map[string]bool{}
 	}
-	for first := range accessors {
-		for i, s := range readAccessors(parse(), first) {
+	for first := range ops {
+		for i, s := range readAccessors(ops, parse(), first) {
 			want[i][s] = true
 		}
 	}
@@ -188,7 +247,7 @@ func stressEvents(r stressRec) hx.Result {
 			go func(g int) {
 				defer wg.Done()
 				<-start
-				got[g] = readAccessors(ev, (g*7+round)%len(accessors))
+				got[g] = readAccessors(ops, ev, (g*7+round)%len(ops))
 			}(g)
 		}
 		close(start)
@@ -196,7 +255,7 @@ func stressEvents(r stressRec) hx.Result {
 		for g := range got {
 			for i := range want {
 				if !want[i][got[g][i]] {
-					return hx.Result{OK: false, Key: key, What: fmt.Sprintf("room version %s %s event (tampered=%v), %d goroutines: goroutine %d observed %q, sequential evaluation gives %q", r.Ver, r.Kind, r.Tamper, r.K, g, got[g][i], sortedKeys(want[i]))}
+					return hx.Result{OK: false, Key: key, What: fmt.Sprintf("room version %s %s event (tampered=%v, constructor %s, copies %q), %d goroutines: goroutine %d observed %q, sequential evaluation gives %q", r.Ver, r.Kind, r.Tamper, r.Ctor, r.Copies, r.K, g, got[g][i], sortedKeys(want[i]))}
 				}
 			}
 		}
@@ -205,7 +264,7 @@ func stressEvents(r stressRec) hx.Result {
 	for s := range want[11] {
 		red = red || s == "Redacted=true"
 	}
-	return hx.Result{OK: true, NT: fmt.Sprintf("events v%s %s tamper=%v redacted=%v", r.Ver, r.Kind, r.Tamper, red)}
+	return hx.Result{OK: true, NT: fmt.Sprintf("events v%s %s tamper=%v redacted=%v ctor=%s copies=%s", r.Ver, r.Kind, r.Tamper, red, r.Ctor, r.Copies)}
 }
 
 // ------------------------------------------------------------------ verify
@@ -240,7 +299,47 @@ func (d *memKeyDB) StoreKeys(_ context.Context, res map[gmsl.PublicKeyLookupRequ
 // instantKeyClient answers at once: servers named "down*" fail on both paths, "notary*" fail directly and
 // succeed through the notary path, everything else succeeds directly.
 type instantKeyClient struct {
-	ids map[spec.ServerName]*serverIdentity
+	ids   map[spec.ServerName]*serverIdentity
+	persp map[spec.ServerName]gmsl.ServerKeys // perspective mode: key responses countersigned by the perspective server
+}
+
+var perspCalls, perspUsable int64 // perspective answers asked for / answers that pass the fetcher's checks
+
+const perspName = spec.ServerName("persp.c19.test")
+const perspKeyID = gmsl.KeyID("ed25519:p1")
+
+// perspectiveAnswer is what the scripted perspective server returns for a batch of key requests: the
+// countersigned responses of the "srv*" servers it knows (others are left to the next fetcher); when "srv1"
+// is among the requested servers its entry carries a broken countersignature, which makes the
+// PerspectiveKeyFetcher reject the whole answer (the ring must then fall back to the next fetcher).
+func (c *instantKeyClient) perspectiveAnswer(reqs map[gmsl.PublicKeyLookupRequest]spec.Timestamp) ([]gmsl.ServerKeys, error) {
+	seen := map[spec.ServerName]bool{}
+	var names []string
+	for r := range reqs {
+		if !seen[r.ServerName] {
+			seen[r.ServerName] = true
+			names = append(names, string(r.ServerName))
+		}
+	}
+	sort.Strings(names)
+	var out []gmsl.ServerKeys
+	atomic.AddInt64(&perspCalls, 1)
+	defer func() {
+		if len(out) > 0 && !seen["srv1.c19.test"] {
+			atomic.AddInt64(&perspUsable, 1)
+		}
+	}()
+	for _, n := range names {
+		k, ok := c.persp[spec.ServerName(n)]
+		if !ok {
+			continue
+		}
+		if strings.HasPrefix(n, "srv1.") {
+			k.Raw = bytes.Replace(append([]byte(nil), k.Raw...), []byte(`"valid_until_ts":`), []byte(`"valid_until_ts":1`), 1)
+		}
+		out = append(out, k)
+	}
+	return out, nil
 }
 
 func (c *instantKeyClient) GetServerKeys(_ context.Context, s spec.ServerName) (gmsl.ServerKeys, error) {
@@ -251,7 +350,10 @@ func (c *instantKeyClient) GetServerKeys(_ context.Context, s spec.ServerName) (
 	return id.resp, nil
 }
 
-func (c *instantKeyClient) LookupServerKeys(_ context.Context, s spec.ServerName, _ map[gmsl.PublicKeyLookupRequest]spec.Timestamp) ([]gmsl.ServerKeys, error) {
+func (c *instantKeyClient) LookupServerKeys(_ context.Context, s spec.ServerName, reqs map[gmsl.PublicKeyLookupRequest]spec.Timestamp) ([]gmsl.ServerKeys, error) {
+	if c.persp != nil && s == perspName {
+		return c.perspectiveAnswer(reqs)
+	}
 	id := c.ids[s]
 	if id == nil || strings.HasPrefix(string(s), "down") {
 		return nil, errors.New("c19: server does not answer as notary")
@@ -259,14 +361,43 @@ func (c *instantKeyClient) LookupServerKeys(_ context.Context, s spec.ServerName
 	return []gmsl.ServerKeys{id.resp}, nil
 }
 
-func newStressRing(ids map[spec.ServerName]*serverIdentity) *gmsl.KeyRing {
+func newStressRing(ids map[spec.ServerName]*serverIdentity, persp map[spec.ServerName]gmsl.ServerKeys) *gmsl.KeyRing {
+	client := &instantKeyClient{ids: ids, persp: persp}
+	fetchers := []gmsl.KeyFetcher{&gmsl.DirectKeyFetcher{
+		Client:            client,
+		IsLocalServerName: func(s spec.ServerName) bool { return false },
+	}}
+	if persp != nil {
+		fetchers = append([]gmsl.KeyFetcher{&gmsl.PerspectiveKeyFetcher{
+			PerspectiveServerName: perspName,
+			PerspectiveServerKeys: map[gmsl.KeyID]ed25519.PublicKey{perspKeyID: seedKey("persp").Public().(ed25519.PublicKey)},
+			Client:                client,
+		}}, fetchers...)
+	}
 	return &gmsl.KeyRing{
-		KeyFetchers: []gmsl.KeyFetcher{&gmsl.DirectKeyFetcher{
-			Client:            &instantKeyClient{ids},
-			IsLocalServerName: func(s spec.ServerName) bool { return false },
-		}},
+		KeyFetchers: fetchers,
 		KeyDatabase: &memKeyDB{keys: map[gmsl.PublicKeyLookupRequest]gmsl.PublicKeyLookupResult{}},
 	}
+}
+
+// countersign returns the key responses of the "srv*" servers signed by the perspective server as well.
+func countersign(ids map[spec.ServerName]*serverIdentity) map[spec.ServerName]gmsl.ServerKeys {
+	out := map[spec.ServerName]gmsl.ServerKeys{}
+	for n, id := range ids {
+		if !strings.HasPrefix(string(n), "srv") {
+			continue
+		}
+		js, err := gmsl.SignJSON(string(perspName), perspKeyID, seedKey("persp"), id.resp.Raw)
+		if err != nil {
+			panic(err)
+		}
+		var k gmsl.ServerKeys
+		if err = json.Unmarshal(js, &k); err != nil {
+			panic(err)
+		}
+		out[n] = k
+	}
+	return out
 }
 
 func renderVerify(res []gmsl.VerifyJSONResult, err error) []string {
@@ -317,19 +448,34 @@ func stressVerify(r stressRec) hx.Result {
 			}
 			reqs = append(reqs, gmsl.VerifyJSONRequest{ServerName: id.name, AtTS: spec.AsTimestamp(time.Unix(1700000000, 0)),
 				Message: signed, ValidityCheckingFunc: gmsl.StrictValiditySignatureCheck})
+			if rng.Intn(4) == 0 {
+				// the same (server, key ID) twice in one batch: once more as it is and once with the other verdict
+				dup := reqs[len(reqs)-1]
+				reqs = append(reqs, dup)
+				if bytes.Contains(dup.Message, []byte(`"n":1`)) {
+					dup.Message = bytes.Replace(dup.Message, []byte(`"n":1`), []byte(`"n":2`), 1)
+				} else {
+					dup.Message = bytes.Replace(dup.Message, []byte(`"n":`), []byte(`"n":1`), 1)
+				}
+				reqs = append(reqs, dup)
+			}
 		}
 		return reqs
+	}
+	var persp map[spec.ServerName]gmsl.ServerKeys
+	if r.Fetch == "perspective" {
+		persp = countersign(ids)
 	}
 	key := "C19/stress/verify/result"
 	for round := 0; round < r.Rounds; round++ {
 		batches := make([][]gmsl.VerifyJSONRequest, r.K)
 		want := make([][]string, r.K)
-		seqRing := newStressRing(ids)
+		seqRing := newStressRing(ids, persp)
 		for g := range batches {
-			batches[g] = mkBatch(1 + rng.Intn(6))
+			batches[g] = mkBatch(rng.Intn(7)) // 0 requests included
 			want[g] = renderVerify(seqRing.VerifyJSONs(context.Background(), batches[g]))
 		}
-		ring := newStressRing(ids) // ONE ring, fetcher and database shared by all goroutines
+		ring := newStressRing(ids, persp) // ONE ring, fetcher and database shared by all goroutines
 		got := make([][]string, r.K)
 		start := make(chan struct{})
 		var wg sync.WaitGroup
@@ -345,11 +491,12 @@ func stressVerify(r stressRec) hx.Result {
 		wg.Wait()
 		for g := range got {
 			if strings.Join(got[g], "\n") != strings.Join(want[g], "\n") {
-				return hx.Result{OK: false, Key: key, What: fmt.Sprintf("%d concurrent VerifyJSONs over %d servers: goroutine %d got %q, sequential evaluation gives %q", r.K, len(names), g, got[g], want[g])}
+				return hx.Result{OK: false, Key: key, What: fmt.Sprintf("%d concurrent VerifyJSONs over %d servers (fetchers: %s): goroutine %d got %q, sequential evaluation gives %q", r.K, len(names), r.Fetch, g, got[g], want[g])}
 			}
 		}
 	}
-	return hx.Result{OK: true, NT: fmt.Sprintf("verify k=%d servers=%d", r.K, len(names))}
+	return hx.Result{OK: true, NT: fmt.Sprintf("verify k=%d servers=%d fetch=%s", r.K, len(names), r.Fetch),
+		Extra: map[string]int64{"perspective_answers": atomic.LoadInt64(&perspCalls), "usable": atomic.LoadInt64(&perspUsable)}}
 }
 
 // --------------------------------------------------------------------- dns
@@ -364,12 +511,47 @@ func (instantResolver) LookupIPAddr(_ context.Context, name string) ([]net.IPAdd
 }
 
 func stressDNS(r stressRec) hx.Result {
-	cache := fclient.NewDNSCache(r.Size, time.Hour, []string{"127.0.0.0/8"}, nil)
+	lifetime := time.Hour
+	if r.Dur0 {
+		lifetime = 0
+	}
+	cache := fclient.NewDNSCache(r.Size, lifetime, []string{"127.0.0.0/8"}, nil)
 	fclient.VerifC19SetResolver(cache, instantResolver{})
+	checkSnapshot := func(fail func(k, format string, a ...interface{}), when string) {
+		ents, size := fclient.VerifC19Snapshot(cache)
+		if len(ents) > size {
+			fail("size-exceeded", "%d goroutines: the cache holds %d entries %s, configured size %d", r.K, len(ents), when, size)
+		}
+		for _, e := range ents {
+			h := strings.TrimSuffix(e.Host, ".c19.test")
+			if h == "z" {
+				fail("failed-resolution-cached", "the cache holds an entry for %q whose resolution always fails: %v", e.Host, e.Addrs)
+			} else if len(e.Addrs) != 1 || e.Addrs[0] != modelIP(h, 1) {
+				fail("cross-host", "the entry of %q holds %v, resolved address is %s", e.Host, e.Addrs, modelIP(h, 1))
+			}
+		}
+	}
 	hosts := []string{"z"}
 	for i := 0; i < r.Hosts; i++ {
 		hosts = append(hosts, string(rune('a'+i)))
 	}
+	// DialContext goes through the same cache; the dial control hook refuses every third dial, so that the
+	// stale-entry path (all addresses of a cached entry fail -> delete the entry -> look up again) runs
+	// concurrently with lookups, expiry and eviction.  The hook never blocks.
+	if dnsPort == "" {
+		if _, err := dnsSetup(); err != nil {
+			panic(err)
+		}
+	}
+	var dials int64
+	fclient.VerifC19WrapDialControl(cache, func(orig fclient.VerifC19ControlFunc) fclient.VerifC19ControlFunc {
+		return func(ctx context.Context, network, address string, rc syscall.RawConn) error {
+			if atomic.AddInt64(&dials, 1)%3 == 0 {
+				return errors.New("c19: scripted dial failure")
+			}
+			return orig(ctx, network, address, rc)
+		}
+	})
 	key := "C19/stress/dns/"
 	var mu sync.Mutex
 	var failure *hx.Result
@@ -390,13 +572,24 @@ func stressDNS(r stressRec) hx.Result {
 			<-start
 			for i := 0; i < r.Rounds; i++ {
 				h := hosts[rng.Intn(len(hosts))]
-				switch rng.Intn(8) {
+				switch rng.Intn(10) {
 				case 0:
-					if ents, size := fclient.VerifC19Snapshot(cache); len(ents) > size {
-						fail("size-exceeded", "%d goroutines: the cache holds %d entries, configured size %d", r.K, len(ents), size)
-					}
+					checkSnapshot(fail, "during the run")
 				case 1:
 					fclient.VerifC19SetExpiry(cache, hostName(h), time.Now().Add(-time.Minute))
+				case 2, 3:
+					conn, err := cache.DialContext(context.Background(), "tcp", hostName(h)+":"+dnsPort)
+					switch {
+					case err == nil:
+						conn.Close()
+						if h == "z" {
+							fail("wrong-result", "DialContext to the unresolvable host returned a connection")
+						}
+					case h == "z" && !strings.HasPrefix(err.Error(), "lookup failed"):
+						fail("wrong-result", "DialContext to the unresolvable host: %v", err)
+					case h != "z" && !strings.HasPrefix(err.Error(), "connection failed"):
+						fail("wrong-result", "DialContext to %q: %v (the host resolves; only the dial may fail)", h, err)
+					}
 				default:
 					addrs, _, ok := fclient.VerifC19Lookup(context.Background(), cache, hostName(h))
 					if h == "z" {
@@ -412,13 +605,11 @@ func stressDNS(r stressRec) hx.Result {
 	}
 	close(start)
 	wg.Wait()
-	if ents, size := fclient.VerifC19Snapshot(cache); len(ents) > size {
-		fail("size-exceeded", "%d goroutines: the cache holds %d entries at the end, configured size %d", r.K, len(ents), size)
-	}
+	checkSnapshot(fail, "at the end")
 	if failure != nil {
 		return *failure
 	}
-	return hx.Result{OK: true, NT: fmt.Sprintf("dns k=%d size=%d hosts=%d", r.K, r.Size, r.Hosts)}
+	return hx.Result{OK: true, NT: fmt.Sprintf("dns k=%d size=%d hosts=%d dur0=%v", r.K, r.Size, r.Hosts, r.Dur0)}
 }
 
 // --------------------------------------------------------------- transport
